@@ -233,8 +233,10 @@ func runCase(c Case) (st stats, err error) {
 			return st, fmt.Errorf("read limit exceeded: close status written %d (-1 = none), want 1009", code)
 		}
 	case want.Event == wsref.EvClose:
-		if code != want.CloseCode {
-			return st, fmt.Errorf("close %d received: close status echoed %d (-1 = none)", want.CloseCode, code)
+		// RFC 6455 5.5.1: a Close frame MUST be sent in response; it typically echoes the status
+		// code, but only the presence of the frame is required here
+		if code == -1 {
+			return st, fmt.Errorf("close %d received: no Close frame was written in response", want.CloseCode)
 		}
 	case want.Event == wsref.EvEOF:
 		if code != -1 {
